@@ -145,6 +145,17 @@ func runC12(c *Ctx) {
 	tablesC12(c)
 	framingRules(c, "R2.framing", []string{yubiPkg})
 	c12RespondOnce(c)
+	// a well-formed add-hardware-certificate frame in either encoding is answered, not taken for a broken one: the arm
+	// ends the connection only after both decoders refused it (C13's rule for the arm, imported)
+	seen, notes := map[string]bool{}, len(c.Notes)
+	for k, v := range c.Analysed {
+		seen[k] = v
+	}
+	nArm := c.WithRulesKept(map[string]string{"R2.passthrough": "R3.respond"}, func(construct, detail string) bool {
+		return strings.HasPrefix(construct, "server.AddHardCert arm|both wire formats") || strings.HasPrefix(construct, "server.AddHardCert arm|gives up only")
+	}, func() { runC13(c) })
+	c.Analysed, c.Notes = seen, c.Notes[:notes]
+	c.Floor("R3.respond", nArm, 1, "give-up exits of the add-hardware-certificate arm")
 }
 
 // c12RespondOnce: on every path of one loop iteration exactly one response is produced; paths that leave the loop
